@@ -229,7 +229,10 @@ def feed_inspector(fmt, data, sizes, feed='bytes', refill=None, forms=None):
         fill = (refill or b'')[:len(buf)]
         buf[:len(fill)] = fill
         buf[len(fill):] = b'\xee' * (len(buf) - len(fill))
-    i.finish()
+    try:
+        i.finish()
+    except Exception as e:
+        raised = raised or ('finish:' + type(e).__name__)
     return i, raised
 
 
@@ -401,7 +404,7 @@ def pick_usage(rng, expected, allowed, iterator=False, p_plain=0.5):
     if rng.random() < p_plain:
         return dict(DEFAULT_USAGE)
     return {'form': pick_tag('InspectWrapper', [None, expected, allowed or None], rng, 0.2, 'PKK'),
-            'read_kw': rng.random() < 0.4, 'source': rng.choice(['bytesio', 'bytesio', 'file']),
+            'read_kw': rng.random() < 0.4, 'source': rng.choice(['bytesio'] + list(FILELIKE_SOURCES)),
             'proto': rng.choice(ITER_PROTOS) if iterator else 'next', 'close_twice': rng.random() < 0.4}
 
 
@@ -427,14 +430,131 @@ def scratch_dir():
     return _SCRATCH[0]
 
 
+class PipeLike:
+    """a stream that offers read() and close() only in earnest: like a pipe or a socket file its optional
+    methods exist but refuse (io.UnsupportedOperation / OSError).  The wrapper's protocol with its source is
+    read(size) / iteration (and close() from close()); nothing else may matter."""
+
+    def __init__(self, data, flavour='unsupported'):
+        self._b = io.BytesIO(data)
+        self.consumed = 0
+        self.flavour = flavour
+        self.closed_calls = 0
+
+    def read(self, size=-1):
+        r = self._b.read(size)
+        self.consumed += len(r)
+        return r
+
+    def _refuse(self, *a, **k):
+        if self.flavour == 'oserror':
+            raise OSError(29, 'Illegal seek')
+        raise io.UnsupportedOperation('underlying stream is not seekable')
+
+    tell = seek = fileno = truncate = _refuse
+
+    def seekable(self):
+        if self.flavour == 'oserror':
+            raise OSError(9, 'Bad file descriptor')
+        return False
+
+    @property
+    def name(self):
+        raise OSError(9, 'Bad file descriptor')
+
+    def close(self):
+        self.closed_calls += 1
+
+
+class MinimalSource:
+    """nothing but read(): no close, tell, seek, fileno, name"""
+    __slots__ = ('_b', 'consumed')
+
+    def __init__(self, data):
+        self._b = io.BytesIO(data)
+        self.consumed = 0
+
+    def read(self, size=-1):
+        r = self._b.read(size)
+        self.consumed += len(r)
+        return r
+
+
+class NonsenseSource(PipeLike):
+    """optional methods that answer, but with nonsense"""
+
+    def tell(self):
+        return 'somewhere'
+
+    def seek(self, *a):
+        return -5
+
+    def seekable(self):
+        return 'yes'
+
+    def fileno(self):
+        return -1
+
+    name = None
+
+
+FILELIKE_SOURCES = ('bytesio', 'file', 'pipe', 'pipe-oserror', 'minimal', 'nonsense', 'ospipe')
+
+
 def open_source(data, kind):
-    """a file-like source that honours read(None) / read(-1) / read(0): io.BytesIO or a real file"""
+    """a file-like source that honours read(None) / read(-1) / read(0): io.BytesIO, a real file, or a stream
+    whose optional methods are absent / refuse / answer nonsense (pipe- and socket-like objects)"""
     if kind == 'file':
         path = os.path.join(scratch_dir(), 'src-%d' % threading.get_ident())
         with open(path, 'wb') as f:
             f.write(data)
         return open(path, 'rb')
+    if kind == 'ospipe' and len(data) <= 32 * K:          # a real pipe (fits the kernel buffer)
+        r, w_ = os.pipe()
+        with os.fdopen(w_, 'wb') as wf:
+            wf.write(data)
+        return os.fdopen(r, 'rb')
+    if kind in ('pipe', 'ospipe'):
+        return PipeLike(data)
+    if kind == 'pipe-oserror':
+        return PipeLike(data, 'oserror')
+    if kind == 'minimal':
+        return MinimalSource(data)
+    if kind == 'nonsense':
+        return NonsenseSource(data)
     return insp_impl.Src(data)
+
+
+def source_consumed(src, delivered):
+    """how many bytes have been taken from the source (its own count where it has one)"""
+    if hasattr(src, 'consumed'):
+        return src.consumed
+    try:
+        return src.tell()
+    except Exception:
+        return delivered          # a real pipe: what was delivered is all we can know
+
+
+class RefusingIterator:
+    """an iterator source that also carries refusing optional methods"""
+
+    def __init__(self, it):
+        self._it = it
+
+    def __iter__(self):
+        return self
+
+    def __next__(self):
+        return next(self._it)
+
+    def tell(self):
+        raise io.UnsupportedOperation('tell')
+
+    def seek(self, *a):
+        raise OSError(29, 'Illegal seek')
+
+    def fileno(self):
+        raise io.UnsupportedOperation('fileno')
 
 
 def effective(n, ops):
@@ -551,6 +671,8 @@ def _stream(w, data, ops, u, on_chunk):
 def _wrapper_for(data, ops, allowed, expected, name_kind, u):
     if u.get('iterator'):
         src = iter(insp_impl.cut(data, effective(len(data), ops)))
+        if u['source'] not in ('bytesio', 'file'):
+            src = RefusingIterator(src)
     else:
         src = open_source(data, u['source'])
     return new_wrapper(src, as_name(name_kind, expected), as_names(name_kind, allowed), u['form'])
@@ -762,6 +884,8 @@ def pipe_trace(allowed, expected, data, sizes, faults, iterator=False, via_iter_
                 yielded[0] += 1
                 yield c
         src = gen()
+        if u['source'] not in ('bytesio', 'file'):
+            src = RefusingIterator(src)
     else:
         src = open_source(data, u['source'])
     w = new_wrapper(src, as_name(name_kind, expected), as_names(name_kind, allowed), u['form'])
@@ -864,7 +988,8 @@ def pipe_trace(allowed, expected, data, sizes, faults, iterator=False, via_iter_
     if iterator:
         consumed = yielded[0]
     else:
-        consumed = src.tell()
+        consumed = source_consumed(src, sum(len(c) for c in chunks[:len(out) + (0 if end[0] == 'done' else 1)]))
+    close_escaped = None
     if end[0] == 'done':
         if iterator:
             if len(out) > len(chunks):
@@ -878,14 +1003,17 @@ def pipe_trace(allowed, expected, data, sizes, faults, iterator=False, via_iter_
                         pass
         else:
             for _ in range(2 if u['close_twice'] else 1):
-                w.close()
+                try:
+                    w.close()
+                except Exception as e:
+                    close_escaped = e
     elif not iterator:
         try:
             src.close()
         except Exception:
             pass
     return {'chunks': chunks, 'out': out, 'end': end, 'events': events, 'consumed': consumed,
-            'fed_after_finish': fed_after_finish, 'prop_reads': prop_reads,
+            'fed_after_finish': fed_after_finish, 'prop_reads': prop_reads, 'close_escaped': close_escaped,
             'errored': {i.NAME for i in whitebox.w_errored(w)},
             'names': sorted(i.NAME for i in whitebox.w_inspectors(w)), 'finished': whitebox.w_finished(w)}
 
